@@ -394,12 +394,17 @@ class GetItem(FunctionContract):
                  st.g("via") == If(self.persistent, z3.StringVal("global"), z3.StringVal("local")))]
 
 
-def units():
+def _units_core():
     return [FunctionUnit(Sanitiser()), FunctionUnit(MapInit()), FunctionUnit(GetOrMake()), FunctionUnit(IsStateVariable()),
             FunctionUnit(GetItem(PY, "PythonNameManager.__getitem__")),
             FunctionUnit(GetItem(FT, "FortranNameManager.__getitem__")),
             LemmaUnit("lemma:name-spaces", prefix_lemmas),
             LemmaUnit("lemma:reserved-identifiers", reserved_lemma)]
+
+
+def units():
+    from . import c13names
+    return _units_core() + c13names.units()
 
 
 LEVEL = "proof"
